@@ -8,6 +8,8 @@
     bdy  <blocks> <atmos>                           → `ok <LS>`
     src  <LS> <nAtm> <gens> <dictSize>              → `ok <n> (s<hex> cell)*` | `exc <Name>`
     whist <items> / wcons <items>                   → `ok <LS>` | `exc AttributeError`
+    wshort <short>                                  → `ok s<heading> <LS lines>` | `exc raises`
+    rshort <LS blocks> <cons> <lookup> s<heading> <LS lines>   → `ok <short>` | `exc <Name>`
     rhist <LS blocks> <LS lines>                    → `ok <items>`
     hyp  <T2>                                       → truth of the theorem hypotheses on this object
 
@@ -232,6 +234,20 @@ def request : P String := do
     pure (match writeCons l with
       | some ns => "ok " ++ eList (fun p => eStr p.1 ++ " " ++ eStr p.2) ns
       | none => "exc AttributeError")
+  | "wshort" => do
+    let so ← pShort
+    pure (match writeShort so with
+      | some (h, body) => "ok " ++ eStr h ++ " " ++ eList eStr body
+      | none => "exc raises")
+  | "rshort" => do
+    let bs ← pList pStr
+    let cs ← pList (do let a ← pStr; let b ← pStr; pure (a, b))
+    let gd ← pList (do let b ← pStr; let n ← pStr; let i ← pNat; pure ((b, n), i))
+    let h ← pStr
+    let body ← pList pStr
+    pure (match readShort bs cs gd h body with
+      | .ok so => "ok " ++ eShort so
+      | .error e => "exc " ++ e.toString)
   | "rhist" => do
     let bs ← pList pStr; let ls ← pList pStr
     pure ("ok " ++ eList eItem (readNames bs ls))
